@@ -81,6 +81,15 @@ Definition type_of (v : tval) : ttype :=
   | VMap _ => TMap | VStruct _ => TStruct | VUuid _ => TUuid
   end.
 
+(** nesting depth: 1 for scalars, 1 + the deepest element for containers and structs *)
+Fixpoint vdepth (v : tval) : nat :=
+  match v with
+  | VList _ vs | VSet _ vs => S (fold_right (fun x acc => Nat.max (vdepth x) acc) O vs)
+  | VMap kvs => S (fold_right (fun (kv : tval * tval) acc => let (k, x) := kv in Nat.max (Nat.max (vdepth k) (vdepth x)) acc) O kvs)
+  | VStruct fs => S (fold_right (fun (f : Z * tval) acc => let (_, x) := f in Nat.max (vdepth x) acc) O fs)
+  | _ => 1%nat
+  end.
+
 Definition byte (b : N) : Prop := b < 256.
 Definition in_range (bits : Z) (z : Z) : Prop := (- 2 ^ (bits - 1) <= z < 2 ^ (bits - 1))%Z.
 Definition in_rangeb (bits : Z) (z : Z) : bool := ((- 2 ^ (bits - 1) <=? z) && (z <? 2 ^ (bits - 1)))%Z.
